@@ -47,6 +47,10 @@ def near_floats(x, y):
         return False
     if x == 0 or y == 0:
         return True
+    # (exact arithmetic on 1000-bit numerators is slow in TLC: the random pairs stay within 2^+-300; the
+    # subnormal and huge families come from near_pair)
+    if abs(math.frexp(x)[1]) > 300 or abs(math.frexp(y)[1]) > 300:
+        return False
     return abs(math.frexp(x)[1] - math.frexp(y)[1]) <= 160
 
 
@@ -146,7 +150,7 @@ def drive(rep, tier, seed):
     # float division family  / % %% //  on pairs built to hit its cases: small integral and half-integral
     # values of both signs (exact quotients, negative remainders), neighbours of a multiple of the divisor,
     # subnormal divisors, quotients beyond 2^53
-    for _ in range(100 * scale):
+    for _ in range(50 if tier == "quick" else 100 * scale):
         x, y = near_pair(rng)
         a, b = tg.c_float(x), tg.c_float(y)
         steps = [{"src": "aa := " + tg.src_of(a), "obs": ["aa"]}, {"src": "bb := " + tg.src_of(b), "obs": ["bb"]}]
